@@ -100,7 +100,7 @@ theorem engine_roundtrip (t : Tables) (tol : Tol) (htol : tol.ok) (hw : wfAll t 
       (t.leadOut.getLastD 0 > 0 → sumAbs frame = t.leadOut.getLastD 0) ∧
       ∃ c, (decodeFull t { last := none, tol := tol } frame []).result = .ok c ∧
         c.fields = List.zipWith (fun p v => (p.1, v % 2 ^ (p.2.2 + 1 - p.2.1))) t.params vals ∧
-        c.frame = frame := by
+        c.frame = frame ∧ t.leadIn.length + 2 ≤ frame.length := by
   obtain ⟨hA, hB, hT, hE, hF, hS⟩ := wfAll_spec hw
   obtain ⟨hL, hli, hb, mo, x, hlo, hmo, hx0⟩ := wfB_spec hB
   obtain ⟨fields, hfields⟩ : ∃ f, f = fieldsOf t.params vals := ⟨_, rfl⟩
@@ -156,8 +156,8 @@ theorem engine_roundtrip (t : Tables) (tol : Tol) (htol : tol.ok) (hw : wfAll t 
     simp only [hbl, Nat.lt_irrefl, if_false]
     by_cases hov : t.decodeOverridden
     · simp only [hov, if_true]
-      exact ⟨_, rfl, by simp only [mkCode]; rw [hbitsEq]; exact hdec.1, rfl⟩
+      exact ⟨_, rfl, by simp only [mkCode]; rw [hbitsEq]; exact hdec.1, rfl, by simp [frameA]⟩
     · simp only [hov, Bool.false_eq_true, if_false]
-      exact ⟨_, rfl, by simp only [mkCode]; rw [hbitsEq]; exact hdec.1, rfl⟩
+      exact ⟨_, rfl, by simp only [mkCode]; rw [hbitsEq]; exact hdec.1, rfl, by simp [frameA]⟩
 
 end IRModel.Props.EngineThm
